@@ -169,7 +169,7 @@ def gen_net(rng, idx, profile):
     menu = {
         "conv": ["conv", "conv", "conv1x1", "dwconv", "maxpool", "avgpool_valid", "relu", "fc_end", "tconv", "fc_batch"],
         "elementwise": ["add_self", "add_skip", "mul_const", "sub_const", "add_const", "minmax", "relu", "lrelu", "quantize",
-                        "conv1x1", "mul_skip", "hswish", "add_const", "sqdiff", "abs"],
+                        "conv1x1", "mul_skip", "hswish", "add_const", "sqdiff", "abs", "prelu"],
         "memory": ["concat", "split_concat", "slice", "pad_conv", "reshape_back", "conv1x1", "relu", "maxpool", "pad", "squeeze_expand",
                    "transpose", "slice_op", "split_v", "pack_end", "unpack_end", "abs"],
         "cascade": ["conv", "conv", "dwconv", "maxpool", "avgpool_valid", "conv1x1", "add_skip", "relu"],
@@ -252,6 +252,21 @@ def gen_net(rng, idx, profile):
                 other = b.const(shp, xt.dtype, r.randint(lo, hi + 1, int(np.prod(shp))), [netgen.rand_scale(rng)], [netgen.rand_zp(rng, xt.dtype)])
             new = b.fm(list(xt.shape), xt.dtype, scale=float(np.float32(rng.choice([0.05, 0.5, 1.0, 4.0]) * rng.uniform(0.5, 1.0))))
             b.net.ops.append(netgen.Op("SQUARED_DIFFERENCE", [cur, other], [new], ("SquaredDifferenceOptions", {})))
+        elif kind == "prelu" and xt.dtype != "int16":
+            # constant alpha per channel: all equal (-> LEAKY_RELU / RELU), all below one (-> MUL, MUL, MAX), anything (-> MIN, MUL, RELU, ADD)
+            style = rng.choice(["same", "small", "mixed"])
+            r = np.random.RandomState(rng.getrandbits(32))
+            lo, hi = netgen._qrange(xt.dtype)
+            za = rng.choice([0, 0, 3, -5]) if xt.dtype == "int8" else rng.choice([0, 100, 128])
+            if style == "same":
+                vals = np.full(cc, rng.randint(max(lo, za - 100), min(hi, za + 100)))
+            elif style == "small":
+                vals = r.randint(max(lo, za - 30), min(hi, za + 30) + 1, cc)
+            else:
+                vals = r.randint(lo, hi + 1, cc)
+            al = b.const([1, 1, cc], xt.dtype, vals, [rng.choice([0.004, 0.01, 0.02, 0.05])], [za])
+            new = b.fm(list(xt.shape), xt.dtype) if rng.random() < 0.7 else b.fm(list(xt.shape), xt.dtype, scale=xt.scales[0], zp=xt.zps[0])
+            b.net.ops.append(netgen.Op("PRELU", [cur, al], [new], None))
         elif kind == "abs" and xt.dtype != "uint8":
             new = b.fm(list(xt.shape), xt.dtype) if rng.random() < 0.7 else b.fm(list(xt.shape), xt.dtype, scale=xt.scales[0])
             b.net.ops.append(netgen.Op("ABS", [cur], [new], ("AbsOptions", {})))
